@@ -14,7 +14,7 @@ def Cur.wf (n : Nat) (c : Cur) : Prop := c.pos + c.rest.length = n
 
 /-- what every parsing function guarantees when started inside a text of `n` bytes: success leaves the cursor inside the
     text and strictly further; a failure reports a position inside the text (`≤ n`) and is never the budget outcome -/
-def Good {α : Type} (n : Nat) (c : Cur) : Res α → Prop
+def Sound {α : Type} (n : Nat) (c : Cur) : Res α → Prop
   | .ok (_, c') => c'.wf n ∧ c'.rest.length < c.rest.length
   | .error (k, off) => off ≤ n ∧ k ≠ ErrKind.fuel
 
@@ -50,25 +50,25 @@ theorem take_eq_length {l lit : Bytes} {k : Nat} (h : l.take k = lit) (hk : lit.
   have := congrArg List.length h
   simp [List.length_take] at this; omega
 
-theorem parseNull_good {n : Nat} {c : Cur} (h : c.wf n) : Good n c (parseNull c) := by
+theorem parseNull_good {n : Nat} {c : Cur} (h : c.wf n) : Sound n c (parseNull c) := by
   unfold parseNull
   split
   · rename_i ht
     have := take_eq_length ht (by decide)
-    simp only [Good, Cur.wf, List.length_drop] at *; omega
-  · simp only [Good, Cur.wf] at *; exact ⟨by omega, by decide⟩
+    simp only [Sound, Cur.wf, List.length_drop] at *; omega
+  · simp only [Sound, Cur.wf] at *; exact ⟨by omega, by decide⟩
 
-theorem parseBool_good {n : Nat} {c : Cur} (h : c.wf n) : Good n c (parseBool c) := by
+theorem parseBool_good {n : Nat} {c : Cur} (h : c.wf n) : Sound n c (parseBool c) := by
   unfold parseBool
   split
   · rename_i ht
     have := take_eq_length ht (by decide)
-    simp only [Good, Cur.wf, List.length_drop] at *; omega
+    simp only [Sound, Cur.wf, List.length_drop] at *; omega
   · split
     · rename_i ht
       have := take_eq_length ht (by decide)
-      simp only [Good, Cur.wf, List.length_drop] at *; omega
-    · simp only [Good, Cur.wf] at *; exact ⟨by omega, by decide⟩
+      simp only [Sound, Cur.wf, List.length_drop] at *; omega
+    · simp only [Sound, Cur.wf] at *; exact ⟨by omega, by decide⟩
 
 
 theorem skipDigits_cons_digit {d : UInt8} {r : Bytes} {p : Nat} (hd : isDigit d = true) :
@@ -252,10 +252,10 @@ theorem scanNumber_err {n : Nat} {c : Cur} {p : Nat} (h : c.wf n) (hs : scanNumb
       | error q => simp only [hsi, hsf, hse, Except.error.injEq] at hs; subst hs; exact scanExp_err hf.1 hse
       | ok y => obtain ⟨hasExp, c3⟩ := y; simp [hsi, hsf, hse] at hs
 
-theorem parseNumber_good (ops : FloatOps) {n : Nat} {c : Cur} (h : c.wf n) : Good n c (parseNumber ops c) := by
+theorem parseNumber_good (ops : FloatOps) {n : Nat} {c : Cur} (h : c.wf n) : Sound n c (parseNumber ops c) := by
   cases hsn : scanNumber c with
-  | error p => simp only [parseNumber, hsn, Good]; exact ⟨scanNumber_err h hsn, by decide⟩
-  | ok x => obtain ⟨hd, c3⟩ := x; simp only [parseNumber, hsn, Good]; exact scanNumber_ok h hsn
+  | error p => simp only [parseNumber, hsn, Sound]; exact ⟨scanNumber_err h hsn, by decide⟩
+  | ok x => obtain ⟨hd, c3⟩ := x; simp only [parseNumber, hsn, Sound]; exact scanNumber_ok h hsn
 
 /-! ### strings -/
 
@@ -299,7 +299,7 @@ theorem decodeU_len {r : Bytes} {cp k : Nat} (h : decodeU r = some (cp, k)) : 1 
         simp only [Gen.Json.hexAdvance]; omega
 
 theorem strLoop_good (lim : Limits) {N : Nat} : ∀ (fuel : Nat) (racc : Bytes) (n : Nat) (c : Cur),
-    c.wf N → c.rest.length + 1 ≤ fuel → Good N c (strLoop lim fuel racc n c) := by
+    c.wf N → c.rest.length + 1 ≤ fuel → Sound N c (strLoop lim fuel racc n c) := by
   intro fuel
   induction fuel with
   | zero => intro racc n c _ hf; omega
@@ -307,22 +307,22 @@ theorem strLoop_good (lim : Limits) {N : Nat} : ∀ (fuel : Nat) (racc : Bytes) 
     intro racc n c hw hf
     obtain ⟨rest, pos⟩ := c
     cases rest with
-    | nil => simp only [strLoop, Good, Cur.wf] at *; exact ⟨by omega, by decide⟩
+    | nil => simp only [strLoop, Sound, Cur.wf] at *; exact ⟨by omega, by decide⟩
     | cons b r =>
       simp only [strLoop]
       have hN : pos + (r.length + 1) = N := by simpa [Cur.wf] using hw
       split
-      · simp only [Good, Cur.wf, List.length_cons]; omega
+      · simp only [Sound, Cur.wf, List.length_cons]; omega
       · split
-        · simp only [Good]; exact ⟨by omega, by decide⟩
+        · simp only [Sound]; exact ⟨by omega, by decide⟩
         · split
           · cases r with
-            | nil => simp only [Good]; exact ⟨by simp at hN; omega, by decide⟩
+            | nil => simp only [Sound]; exact ⟨by simp at hN; omega, by decide⟩
             | cons e r2 =>
               simp only
               split
               · cases hd : decodeU r2 with
-                | none => simp only [Good]; exact ⟨by simp at hN; omega, by decide⟩
+                | none => simp only [Sound]; exact ⟨by simp at hN; omega, by decide⟩
                 | some x =>
                   obtain ⟨cp, k⟩ := x
                   have hk := decodeU_len hd
@@ -337,10 +337,10 @@ theorem strLoop_good (lim : Limits) {N : Nat} : ∀ (fuel : Nat) (racc : Bytes) 
                   cases res with
                   | error e' => exact this
                   | ok y =>
-                    simp only [Good, List.length_drop, List.length_cons] at *
+                    simp only [Sound, List.length_drop, List.length_cons] at *
                     exact ⟨this.1, by omega⟩
               · cases hl : Gen.Json.parseEscapes.lookup e.toNat with
-                | none => simp only [Good]; exact ⟨by simp at hN; omega, by decide⟩
+                | none => simp only [Sound]; exact ⟨by simp at hN; omega, by decide⟩
                 | some o =>
                   simp only
                   have hw' : Cur.wf N ⟨r2, pos + 2⟩ := by simp only [Cur.wf, List.length_cons] at *; omega
@@ -351,7 +351,7 @@ theorem strLoop_good (lim : Limits) {N : Nat} : ∀ (fuel : Nat) (racc : Bytes) 
                   cases res with
                   | error e' => exact this
                   | ok y =>
-                    simp only [Good, List.length_cons] at *
+                    simp only [Sound, List.length_cons] at *
                     exact ⟨this.1, by omega⟩
           · have hw' : Cur.wf N ⟨r, pos + 1⟩ := by simp only [Cur.wf]; omega
             have := ih (b :: racc) (n + 1) _ hw' (by simp only [List.length_cons] at *; omega)
@@ -361,13 +361,13 @@ theorem strLoop_good (lim : Limits) {N : Nat} : ∀ (fuel : Nat) (racc : Bytes) 
             cases res with
             | error e' => exact this
             | ok y =>
-              simp only [Good, List.length_cons] at *
+              simp only [Sound, List.length_cons] at *
               exact ⟨this.1, by omega⟩
 
-theorem parseString_good (lim : Limits) {N : Nat} {c : Cur} (h : c.wf N) : Good N c (parseString lim c) := by
+theorem parseString_good (lim : Limits) {N : Nat} {c : Cur} (h : c.wf N) : Sound N c (parseString lim c) := by
   obtain ⟨rest, pos⟩ := c
   cases rest with
-  | nil => simp only [parseString, Good, Cur.wf] at *; exact ⟨by omega, by decide⟩
+  | nil => simp only [parseString, Sound, Cur.wf] at *; exact ⟨by omega, by decide⟩
   | cons b r =>
     simp only [parseString]
     split
@@ -379,25 +379,25 @@ theorem parseString_good (lim : Limits) {N : Nat} {c : Cur} (h : c.wf N) : Good 
       cases res with
       | error e' => exact this
       | ok y =>
-        simp only [Good, List.length_cons] at *
+        simp only [Sound, List.length_cons] at *
         exact ⟨this.1, by omega⟩
-    · simp only [Good, Cur.wf] at *; exact ⟨by omega, by decide⟩
+    · simp only [Sound, Cur.wf] at *; exact ⟨by omega, by decide⟩
 
 /-! ### containers -/
 
-theorem Good.of_ok_le {α : Type} {N : Nat} {c c0 : Cur} {r : Res α} (h : Good N c r) (hl : c.rest.length ≤ c0.rest.length) :
-    Good N c0 r := by
+theorem Sound.of_ok_le {α : Type} {N : Nat} {c c0 : Cur} {r : Res α} (h : Sound N c r) (hl : c.rest.length ≤ c0.rest.length) :
+    Sound N c0 r := by
   cases r with
   | error e => exact h
-  | ok y => simp only [Good] at *; exact ⟨h.1, by omega⟩
+  | ok y => simp only [Sound] at *; exact ⟨h.1, by omega⟩
 
-theorem Good.err {α β : Type} {N : Nat} {c c' : Cur} {e : Err} (h : Good (α := α) N c (.error e)) :
-    Good (α := β) N c' (.error e) := by
+theorem Sound.err {α β : Type} {N : Nat} {c c' : Cur} {e : Err} (h : Sound (α := α) N c (.error e)) :
+    Sound (α := β) N c' (.error e) := by
   obtain ⟨k, off⟩ := e; exact h
 
-theorem arrLoop_good {pv : Cur → Res Json} (lim : Limits) {N : Nat} (hpv : ∀ c, c.wf N → Good N c (pv c)) :
+theorem arrLoop_good {pv : Cur → Res Json} (lim : Limits) {N : Nat} (hpv : ∀ c, c.wf N → Sound N c (pv c)) :
     ∀ (fuel : Nat) (racc : List Json) (n : Nat) (c : Cur),
-    c.wf N → c.rest.length + 1 ≤ fuel → Good N c (arrLoop pv lim fuel racc n c) := by
+    c.wf N → c.rest.length + 1 ≤ fuel → Sound N c (arrLoop pv lim fuel racc n c) := by
   intro fuel
   induction fuel with
   | zero => intro racc n c _ hf; omega
@@ -405,17 +405,17 @@ theorem arrLoop_good {pv : Cur → Res Json} (lim : Limits) {N : Nat} (hpv : ∀
     intro racc n c hw hf
     simp only [arrLoop]
     split
-    · simp only [Good, Cur.wf] at *; exact ⟨by omega, by decide⟩
+    · simp only [Sound, Cur.wf] at *; exact ⟨by omega, by decide⟩
     · have hp := hpv c hw
       cases hr : pv c with
       | error e => rw [hr] at hp; exact hp.err
       | ok y =>
         obtain ⟨v, c1⟩ := y
-        simp only [hr, Good] at hp
+        simp only [hr, Sound] at hp
         have hs := skipWs_wf hp.1
         simp only
         cases h2 : (skipWs c1).rest with
-        | nil => simp only [Good]; exact ⟨by have := hs.1; simp only [Cur.wf] at this; omega, by decide⟩
+        | nil => simp only [Sound]; exact ⟨by have := hs.1; simp only [Cur.wf] at this; omega, by decide⟩
         | cons b r =>
           simp only
           have hpos : (skipWs c1).pos + (r.length + 1) = N := by
@@ -423,16 +423,16 @@ theorem arrLoop_good {pv : Cur → Res Json} (lim : Limits) {N : Nat} (hpv : ∀
           have hlen : r.length + 1 ≤ c1.rest.length := by
             have := hs.2; simp only [h2, List.length_cons] at this; exact this
           split
-          · simp only [Good, Cur.wf]; exact ⟨by omega, by omega⟩
+          · simp only [Sound, Cur.wf]; exact ⟨by omega, by omega⟩
           · split
             · have hw' : Cur.wf N ⟨r, (skipWs c1).pos + 1⟩ := by simp only [Cur.wf]; omega
               have hs' := skipWs_wf hw'
               have := ih (v :: racc) (n + 1) _ hs'.1 (by simp only at hs'; omega)
               exact this.of_ok_le (by simp only at hs'; omega)
-            · simp only [Good]; exact ⟨by omega, by decide⟩
+            · simp only [Sound]; exact ⟨by omega, by decide⟩
 
-theorem parseArray_good {pv : Cur → Res Json} (lim : Limits) {N : Nat} (hpv : ∀ c, c.wf N → Good N c (pv c))
-    {c : Cur} (hw : c.wf N) (hne : c.rest ≠ []) : Good N c (parseArray pv lim c) := by
+theorem parseArray_good {pv : Cur → Res Json} (lim : Limits) {N : Nat} (hpv : ∀ c, c.wf N → Sound N c (pv c))
+    {c : Cur} (hw : c.wf N) (hne : c.rest ≠ []) : Sound N c (parseArray pv lim c) := by
   obtain ⟨rest, pos⟩ := c
   cases rest with
   | nil => exact absurd rfl hne
@@ -451,13 +451,13 @@ theorem parseArray_good {pv : Cur → Res Json} (lim : Limits) {N : Nat} (hpv : 
         have := hs.2; rw [h1] at this; simp only [Cur.adv, List.tail_cons, List.length_cons] at this; exact this
       split
       · have := hs.1
-        simp only [Good, Cur.wf, h1, List.length_cons] at *; exact ⟨by omega, by omega⟩
+        simp only [Sound, Cur.wf, h1, List.length_cons] at *; exact ⟨by omega, by omega⟩
       · have := arrLoop_good lim hpv ((b :: r).length + 1) [] 0 _ hs.1 (by simp [h1])
         exact this.of_ok_le (by simp only [h1, List.length_cons]; omega)
 
-theorem objLoop_good {pv : Cur → Res Json} (lim : Limits) {N : Nat} (hpv : ∀ c, c.wf N → Good N c (pv c)) :
+theorem objLoop_good {pv : Cur → Res Json} (lim : Limits) {N : Nat} (hpv : ∀ c, c.wf N → Sound N c (pv c)) :
     ∀ (fuel : Nat) (ms : List (Bytes × Json)) (c : Cur),
-    c.wf N → c.rest.length + 1 ≤ fuel → Good N c (objLoop pv lim fuel ms c) := by
+    c.wf N → c.rest.length + 1 ≤ fuel → Sound N c (objLoop pv lim fuel ms c) := by
   intro fuel
   induction fuel with
   | zero => intro ms c _ hf; omega
@@ -465,17 +465,17 @@ theorem objLoop_good {pv : Cur → Res Json} (lim : Limits) {N : Nat} (hpv : ∀
     intro ms c hw hf
     simp only [objLoop]
     split
-    · simp only [Good, Cur.wf] at *; exact ⟨by omega, by decide⟩
+    · simp only [Sound, Cur.wf] at *; exact ⟨by omega, by decide⟩
     · have hk := parseString_good lim hw
       cases hr : parseString lim c with
       | error e => rw [hr] at hk; exact hk.err
       | ok y =>
         obtain ⟨k, c1⟩ := y
-        simp only [hr, Good] at hk
+        simp only [hr, Sound] at hk
         have hs := skipWs_wf hk.1
         simp only
         cases h2 : (skipWs c1).rest with
-        | nil => simp only [Good]; exact ⟨by have := hs.1; simp only [Cur.wf] at this; omega, by decide⟩
+        | nil => simp only [Sound]; exact ⟨by have := hs.1; simp only [Cur.wf] at this; omega, by decide⟩
         | cons b r =>
           simp only
           have hpos : (skipWs c1).pos + (r.length + 1) = N := by
@@ -483,18 +483,18 @@ theorem objLoop_good {pv : Cur → Res Json} (lim : Limits) {N : Nat} (hpv : ∀
           have hlen : r.length + 1 ≤ c1.rest.length := by
             have := hs.2; simp only [h2, List.length_cons] at this; exact this
           split
-          · simp only [Good]; exact ⟨by omega, by decide⟩
+          · simp only [Sound]; exact ⟨by omega, by decide⟩
           · have hw3 : Cur.wf N ⟨r, (skipWs c1).pos + 1⟩ := by simp only [Cur.wf]; omega
             have hv := hpv _ hw3
             cases hr3 : pv ⟨r, (skipWs c1).pos + 1⟩ with
             | error e => rw [hr3] at hv; exact hv.err
             | ok y3 =>
               obtain ⟨v, c3⟩ := y3
-              simp only [hr3, Good] at hv
+              simp only [hr3, Sound] at hv
               have hs4 := skipWs_wf hv.1
               simp only
               cases h4 : (skipWs c3).rest with
-              | nil => simp only [Good]; exact ⟨by have := hs4.1; simp only [Cur.wf] at this; omega, by decide⟩
+              | nil => simp only [Sound]; exact ⟨by have := hs4.1; simp only [Cur.wf] at this; omega, by decide⟩
               | cons b4 r4 =>
                 simp only
                 have hpos4 : (skipWs c3).pos + (r4.length + 1) = N := by
@@ -502,16 +502,16 @@ theorem objLoop_good {pv : Cur → Res Json} (lim : Limits) {N : Nat} (hpv : ∀
                 have hlen4 : r4.length + 1 ≤ c3.rest.length := by
                   have := hs4.2; simp only [h4, List.length_cons] at this; exact this
                 split
-                · simp only [Good, Cur.wf]; exact ⟨by omega, by omega⟩
+                · simp only [Sound, Cur.wf]; exact ⟨by omega, by omega⟩
                 · split
                   · have hw' : Cur.wf N ⟨r4, (skipWs c3).pos + 1⟩ := by simp only [Cur.wf]; omega
                     have hs' := skipWs_wf hw'
                     have := ih (insertOrAssign k v ms) _ hs'.1 (by simp only at hs'; omega)
                     exact this.of_ok_le (by simp only at hs'; omega)
-                  · simp only [Good]; exact ⟨by omega, by decide⟩
+                  · simp only [Sound]; exact ⟨by omega, by decide⟩
 
-theorem parseObject_good {pv : Cur → Res Json} (lim : Limits) {N : Nat} (hpv : ∀ c, c.wf N → Good N c (pv c))
-    {c : Cur} (hw : c.wf N) (hne : c.rest ≠ []) : Good N c (parseObject pv lim c) := by
+theorem parseObject_good {pv : Cur → Res Json} (lim : Limits) {N : Nat} (hpv : ∀ c, c.wf N → Sound N c (pv c))
+    {c : Cur} (hw : c.wf N) (hne : c.rest ≠ []) : Sound N c (parseObject pv lim c) := by
   obtain ⟨rest, pos⟩ := c
   cases rest with
   | nil => exact absurd rfl hne
@@ -530,12 +530,12 @@ theorem parseObject_good {pv : Cur → Res Json} (lim : Limits) {N : Nat} (hpv :
         have := hs.2; rw [h1] at this; simp only [Cur.adv, List.tail_cons, List.length_cons] at this; exact this
       split
       · have := hs.1
-        simp only [Good, Cur.wf, h1, List.length_cons] at *; exact ⟨by omega, by omega⟩
+        simp only [Sound, Cur.wf, h1, List.length_cons] at *; exact ⟨by omega, by omega⟩
       · have := objLoop_good lim hpv ((b :: r).length + 1) [] _ hs.1 (by simp [h1])
         exact this.of_ok_le (by simp only [h1, List.length_cons]; omega)
 
 theorem parseValue_good (ops : FloatOps) (lim : Limits) {N : Nat} : ∀ (fuel depth : Nat) (c : Cur),
-    c.wf N → lim.depthMax + 2 ≤ fuel + depth → depth ≤ lim.depthMax + 1 → Good N c (parseValue ops lim fuel depth c) := by
+    c.wf N → lim.depthMax + 2 ≤ fuel + depth → depth ≤ lim.depthMax + 1 → Sound N c (parseValue ops lim fuel depth c) := by
   intro fuel
   induction fuel with
   | zero => intro depth c _ h1 h2; omega
@@ -543,15 +543,15 @@ theorem parseValue_good (ops : FloatOps) (lim : Limits) {N : Nat} : ∀ (fuel de
     intro depth c hw h1 h2
     simp only [parseValue]
     split
-    · simp only [Good, Cur.wf] at *; exact ⟨by omega, by decide⟩
+    · simp only [Sound, Cur.wf] at *; exact ⟨by omega, by decide⟩
     · rename_i hd
       have hd' : depth ≤ lim.depthMax := by
         exact Nat.le_of_not_lt (fun h => hd ((depthExceeded_iff _ _).mpr h))
       have hs := skipWs_wf hw
-      have hpv : ∀ c', Cur.wf N c' → Good N c' (parseValue ops lim fuel (depth + 1) c') :=
+      have hpv : ∀ c', Cur.wf N c' → Sound N c' (parseValue ops lim fuel (depth + 1) c') :=
         fun c' hc' => ih (depth + 1) c' hc' (by omega) (by omega)
       cases h1 : (skipWs c).rest with
-      | nil => simp only [Good]; exact ⟨by have := hs.1; simp only [Cur.wf] at this; omega, by decide⟩
+      | nil => simp only [Sound]; exact ⟨by have := hs.1; simp only [Cur.wf] at this; omega, by decide⟩
       | cons b r =>
         simp only
         have hne : (skipWs c).rest ≠ [] := by simp [h1]
@@ -565,7 +565,7 @@ theorem parseValue_good (ops : FloatOps) (lim : Limits) {N : Nat} : ∀ (fuel de
               | error e => rw [hr] at this; exact this.err
               | ok y =>
                 obtain ⟨s', c'⟩ := y
-                simp only [hr, Good] at this ⊢
+                simp only [hr, Sound] at this ⊢
                 exact ⟨this.1, by omega⟩
             · split
               · exact (parseArray_good lim hpv hs.1 hne).of_ok_le hs.2
@@ -573,7 +573,7 @@ theorem parseValue_good (ops : FloatOps) (lim : Limits) {N : Nat} : ∀ (fuel de
                 · exact (parseObject_good lim hpv hs.1 hne).of_ok_le hs.2
                 · split
                   · exact (parseNumber_good ops hs.1).of_ok_le hs.2
-                  · simp only [Good]; exact ⟨by have := hs.1; simp only [Cur.wf] at this; omega, by decide⟩
+                  · simp only [Sound]; exact ⟨by have := hs.1; simp only [Cur.wf] at this; omega, by decide⟩
 
 /-- the top-level invariant: an error is reported at an offset inside the text and is never the budget outcome -/
 theorem parse_error_offset (ops : FloatOps) (lim : Limits) (bs : Bytes) {k : ErrKind} {off : Nat}
@@ -593,10 +593,10 @@ theorem parse_error_offset (ops : FloatOps) (lim : Limits) (bs : Bytes) {k : Err
     | error e =>
       simp only [hr, Except.error.injEq] at h
       subst h
-      simpa [hr, Good] using hg
+      simpa [hr, Sound] using hg
     | ok y =>
       obtain ⟨v, c1⟩ := y
-      simp only [hr, Good] at hg h
+      simp only [hr, Sound] at hg h
       have hs2 := skipWs_wf hg.1
       cases h2 : (skipWs c1).rest with
       | nil => simp [h2] at h
